@@ -103,12 +103,15 @@ class HSymMixin(Hooks, SymlinkNodeMixin):
 
 
 FAMILIES = ("NM", "LM", "Node", "AnyNode", "MIX")
+CUSTOM_FAMILIES = {}  # name -> factory(k) -> list of fresh detached nodes
 
 
 def make_nodes(family, k):
     """k fresh detached nodes of the family (MIX: a rotation of all
     NodeMixin-based classes, symlinks pointing at hidden targets or at other
     universe members)."""
+    if family in CUSTOM_FAMILIES:
+        return CUSTOM_FAMILIES[family](k)
     if family == "NM":
         return [NM("n%d" % i) for i in range(k)]
     if family == "LM":
